@@ -107,7 +107,13 @@ def job_generic(job, seed):
         with C.oracle():
             gn_ = C.rsqrt(vnorm2(vec(g)), nonneg=True)
             d_ = vdot(vec(g), vec(b1))
-        chk(f'path{k}:perpendicular-beam implementation only when |g.b1| <= 1e-10 |g|', (d_ <= gn_ * Fraction(1e-10)) & (-d_ <= gn_ * Fraction(1e-10)), 'C04:generic:dispatch', pc=p.pc)
+        goal_ = (d_ <= gn_ * Fraction(1e-10)) & (-d_ <= gn_ * Fraction(1e-10))
+        # the dispatch is the first decision of the path: fewer premises first (a proof from a prefix of the path condition is a proof)
+        pre = C.prove(f'generic[{dt_lam}]:path{k}:perpendicular-beam implementation only when |g.b1| <= 1e-10 |g|', goal_, pc=p.pc[:1], timeout_ms=30000)
+        if pre.status == 'discharged':
+            obs.append(ob_dict(pre))
+        else:
+            chk(f'path{k}:perpendicular-beam implementation only when |g.b1| <= 1e-10 |g|', goal_, 'C04:generic:dispatch', pc=p.pc)
 
     for k, p in enumerate(paths):
         if p.inconclusive:
